@@ -102,6 +102,13 @@ func init() {
 		if *modes == "all" {
 			modeList = []int{0, -1, 1}
 		}
+		// WoD pools below the 15-dice display limit whose explosions carry the total past the 100-dice limit (the rounds already
+		// recorded are then dropped from the text), and pools just above / below both limits
+		for k := 0; k < 60; k++ {
+			pool := int64(6 + r.intn(16))
+			addLine := pick(r, []int64{2, 2, 3, 4})
+			c04Wod(r.u64(), r.u64(), addLine, pool, 10, int64(1+r.intn(10)), r.chance(3, 4), 0)
+		}
 		// small deterministic grid (sampled: the full grid is huge; every axis value appears)
 		sidesL := []int64{1, 2, 3, 6, 10, 100}
 		for _, mode := range modeList {
@@ -143,8 +150,10 @@ func init() {
 				if mode == -1 && addLine == 1 {
 					addLine = 2
 				}
-				if mode == 0 && addLine != 0 && addLine < points/2+2 {
-					addLine = points/2 + 2 // keep the explosion probability <= 1/2 (termination of unbudgeted rounds is C07's business)
+				if mode == 0 && addLine != 0 && addLine < points/10+2 {
+					// every die explodes with probability (points-addLine+1)/points < 1, so the rounds die out; keep that probability
+					// <= 0.9 (about ten dice rolled per die of the pool: totals beyond the 100-dice display limit do occur)
+					addLine = points/10 + 2
 				}
 				c04Wod(hi, lo, addLine, pool, points, int64(1+r.intn(int(points)+1)), r.chance(3, 4), mode)
 			default:
